@@ -16,6 +16,8 @@ Ltac ps_rw_step :=
   | |- ps_rw _ _ (PsDo (PoPrintf _ _) _) => apply PsRwPrintf; intro
   | |- ps_rw _ _ (match ?x with _ => _ end) => destruct x
   | |- ps_rw _ _ (if ?x then _ else _) => destruct x
+  | |- ps_rw _ _ ((if ?x then _ else _) _) => destruct x
+  | |- ps_rw _ _ ((match ?x with _ => _ end) _) => destruct x
   end.
 
 Lemma ps_obs_read_rw : forall la lt ho hn, ps_rw ho hn (ps_obs_read la lt ho).
@@ -145,18 +147,25 @@ Lemma ps_pure_dyn_read : forall h r rest,
 Proof.
   intros h [proto name pkt] rest (Hp & Hn & Hk). cbn [dy_proto dy_name dy_pkt] in *.
   unfold ps_dyn_read, ps_dyn_enc. cbn [dy_proto dy_name dy_pkt].
-  rewrite <- !app_assoc. unfold PS_MAX in *.
+  rewrite <- !app_assoc. unfold PS_MAX in *. pose proof (len_nonneg name) as Hn0.
   rewrite ps_pure_rd, (ps_item_app PS_PROTO proto) by (assumption || reflexivity).
   rewrite ps_pure_rd, (ps_item_app PS_LEN (ps_enc_size (len name)))
     by (apply ps_len_enc_size || reflexivity).
   rewrite ps_dec_enc_size by lia.
   rewrite ps_size_ok_true by (unfold PS_MAX; lia). cbn [negb].
-  rewrite ps_pure_rd, (ps_item_app (len name) name) by (reflexivity || lia).
-  rewrite ps_pure_rd, (ps_item_app PS_LEN (ps_enc_size (len pkt)))
-    by (apply ps_len_enc_size || reflexivity).
-  rewrite ps_dec_enc_size by lia.
-  rewrite ps_size_ok_true by (unfold PS_MAX; lia). cbn [negb].
-  rewrite ps_pure_rd, (ps_item_app (len pkt) pkt) by (reflexivity || lia). reflexivity.
+  destruct (Z.eqb_spec (len name) 0) as [E|E].
+  - destruct name; [|rewrite len_cons in E; pose proof (len_nonneg name); lia]. cbn [app].
+    rewrite ps_pure_rd, (ps_item_app PS_LEN (ps_enc_size (len pkt)))
+      by (apply ps_len_enc_size || reflexivity).
+    rewrite ps_dec_enc_size by lia.
+    rewrite ps_size_ok_true by (unfold PS_MAX; lia). cbn [negb].
+    rewrite ps_pure_rd, (ps_item_app (len pkt) pkt) by (reflexivity || lia). reflexivity.
+  - rewrite ps_pure_rd, (ps_item_app (len name) name) by (reflexivity || lia).
+    rewrite ps_pure_rd, (ps_item_app PS_LEN (ps_enc_size (len pkt)))
+      by (apply ps_len_enc_size || reflexivity).
+    rewrite ps_dec_enc_size by lia.
+    rewrite ps_size_ok_true by (unfold PS_MAX; lia). cbn [negb].
+    rewrite ps_pure_rd, (ps_item_app (len pkt) pkt) by (reflexivity || lia). reflexivity.
 Qed.
 
 Lemma ps_pure_dyn_read_eof : forall h, ps_pure (ps_dyn_read h) [] = (None, [], []).
@@ -169,10 +178,15 @@ Proof.
   unfold ps_dyn_write, ps_dyn_enc. cbn [dy_proto dy_name dy_pkt]. unfold PS_PROTO in *.
   rewrite ps_pure_wr by (apply ps_len_nonnil; lia). cbn [negb].
   rewrite ps_pure_wr by (apply ps_len_nonnil; rewrite ps_len_enc_size; reflexivity). cbn [negb].
-  rewrite ps_pure_wr by (apply ps_len_nonnil; lia). cbn [negb].
-  rewrite ps_pure_wr by (apply ps_len_nonnil; rewrite ps_len_enc_size; reflexivity). cbn [negb].
-  rewrite ps_pure_wr by (apply ps_len_nonnil; lia). cbn [ps_pure].
-  rewrite app_nil_r. reflexivity.
+  destruct name as [|b name].
+  - cbn [negb app].
+    rewrite ps_pure_wr by (apply ps_len_nonnil; rewrite ps_len_enc_size; reflexivity). cbn [negb].
+    rewrite ps_pure_wr by (apply ps_len_nonnil; lia). cbn [ps_pure].
+    rewrite app_nil_r. reflexivity.
+  - rewrite ps_pure_wr by discriminate. cbn [negb].
+    rewrite ps_pure_wr by (apply ps_len_nonnil; rewrite ps_len_enc_size; reflexivity). cbn [negb].
+    rewrite ps_pure_wr by (apply ps_len_nonnil; lia). cbn [ps_pure].
+    rewrite app_nil_r. reflexivity.
 Qed.
 
 (* the specifications the copy loops are measured against *)
@@ -368,6 +382,8 @@ Ltac ps_wo_step :=
   | |- ps_wo _ (PsDo (PoPrintf _ _) _) => apply PsWoPrintf; intro
   | |- ps_wo _ (match ?x with _ => _ end) => destruct x
   | |- ps_wo _ (if ?x then _ else _) => destruct x
+  | |- ps_wo _ ((if ?x then _ else _) _) => destruct x
+  | |- ps_wo _ ((match ?x with _ => _ end) _) => destruct x
   end.
 
 Lemma ps_obs_write_wo : forall hn r, ps_wo hn (ps_obs_write hn r).
